@@ -1,10 +1,10 @@
 """C14 — all directed-graph containers present the same graph (container/)."""
 
-# Which definitions the model driver runs: "current" = the code as it is (DirectionBoth defect F2
-# reproduced), "fixed" = hooks/C14-fix.patch applied. Flip to "fixed" in the same commit that lands the
-# fix in /repo and moves the four F2 entries of known_findings.json to status "fixed".
+# Which definitions the model driver runs: "fixed" = the code as it is (F2 repaired in /repo by 789c790, the live
+# definitions of the Lean statements), "old" = the pre-repair definitions (DirectionBoth defect F2 reproduced; only
+# for replaying the old shape against a scratch worktree that reverts the fix).
 import os
-MODEL_MODE = os.environ.get("VERIF_C14_MODE", "fixed")   # env override only for trying the fix in a scratch worktree
+MODEL_MODE = os.environ.get("VERIF_C14_MODE", "fixed")
 
 P = "Dawgs.C14.Props."
 THEOREMS = {
@@ -12,12 +12,9 @@ THEOREMS = {
         "adjmap_adj_eq",
         "csr_offsets_inv",
         "csr_adj_eq",
-        "ts_adj_eq_partial",
-        "ts_adj_both_refuted",
-        "ts_adj_eq_fixed",
-        "proj_adj_eq_partial",
-        "proj_adj_both_refuted",
-        "proj_adj_eq_fixed",
+        "ts_adj_eq",
+        "proj_adj_eq",
+        "proj_tombstone_partial",
         "proj_tombstone_refuted",
         "numNodes_eq",
         "reach_fuel_sufficient",
@@ -25,9 +22,16 @@ THEOREMS = {
         "bfsTree_dist_eq",
         "normalize_iso",
         "segment_roundtrip",
-        "c14_full_refuted",
-        "c14_fixed",
-        "c14_partial",
+        "toSegment_panics",
+        "toSegment_partial",
+        "c14",
+        # the code before 789c790 (F2): refutations and what held then
+        "ts_adj_both_refuted_old",
+        "proj_adj_both_refuted_old",
+        "ts_adj_eq_old_partial",
+        "proj_adj_eq_old_partial",
+        "c14_refuted_old",
+        "c14_old_partial",
     ]],
 }
 
@@ -106,7 +110,7 @@ SPEC = {
     "theorems_by_module": THEOREMS,
     "gate_modules": ["Dawgs.Model.C14", "Dawgs.Spec.C14", "Dawgs.Proofs.C14", "Dawgs.Proofs.C14TS", "Dawgs.Proofs.C14Csr", "Dawgs.Proofs.C14Reach",
                      "Dawgs.Proofs.C14Bfs", "Dawgs.Proofs.C14Norm", "Dawgs.Proofs.C14Seg", "Dawgs.Proofs.C14Glue", "Dawgs.Props.C14"],
-    "suites": [{"name": "c14", "model_suite": "c14" if MODEL_MODE == "current" else "c14fixed", "monitor_suite": "c14mon",
+    "suites": [{"name": "c14", "model_suite": "c14" if MODEL_MODE == "fixed" else "c14old", "monitor_suite": "c14mon",
                 "keep_prefix": 2, "shrink_budget": 60, "thorough_seeds": 1}],
     "nontrivial": nontrivial,
     "finding_key": finding_key,
@@ -167,8 +171,8 @@ MANIFEST = {
     "text": "Lean theorems over ALL build histories (arbitrary ids, self loops, parallel/antiparallel edges, isolated nodes): the adjacency map, the CSR "
             "digraph (offset invariant proved by induction over the builder and fill loops) and — for outbound/inbound — the triple store and every "
             "deleted-node/deleted-edge projection present exactly the edge list's adjacency sets and node count; Reach equals >=1-step reachability with "
-            "fuel |nodes|+1 proved sufficient; BFSTree reports every reachable node once with the length of a SHORTEST walk; Normalize is an isomorphism; segment marshalling round-trips. For `both` the current triple store and "
-            "projection are REFUTED by witness (known findings) and proved for the repaired definitions. The models are transcriptions of container/*.go "
+            "fuel |nodes|+1 proved sufficient; BFSTree reports every reachable node once with the length of a SHORTEST walk; Normalize is an isomorphism; segment marshalling round-trips. `C14_full` is the statement about the code as it is (F2 repaired by 789c790) and is proved (`c14`); the pre-repair "
+            "definitions are kept only for the `_old` refutations. The models are transcriptions of container/*.go "
             "compared with the real code on exhaustive small graphs and random multigraphs every run, and the real answers are judged by the spec monitor.",
     "note": "TSBFS/TSDFS and BFSTreeFile: tie + monitor only (no Lean theorem). Trusted: Lean kernel, roaring bitmaps, Go maps, deque, gzip.",
 }
